@@ -512,3 +512,71 @@ def declared_limit_pairs(nbytes, signed):
             seen.add(p)
             out.append(p)
     return out
+
+
+# ------------------------------------------- byte-position boundary patterns (C09, C11) --
+# A rule that belongs to ONE byte of a value (one-byte version 0xFF = "not implemented", a MASK byte, a sign bit, a
+# NUL) must not leak to the other positions of a wider value.  For every byte position of an n-byte field: each of the
+# bytes below, with the remaining positions all 0x00, all 0xFF, or filled with unremarkable bytes - so 00 FF, FF 00,
+# FF FF, 00 FE, FE FF, 00 01, 7F FF, 80 00 ... all occur - plus pairs of edge bytes at neighbouring positions between
+# unremarkable bytes (every pair for a two-byte field).
+EDGE_BYTES = (0x00, 0x01, 0x7F, 0x80, 0xFE, 0xFF)
+
+
+_EDGE_PAIRS = ((0x00, 0xFF), (0xFF, 0x00), (0xFF, 0xFE), (0xFF, 0xFF), (0x00, 0x00), (0x7F, 0xFF), (0x80, 0x00), (0x00, 0x01))
+
+
+def _typical(n):
+    """n unremarkable bytes: none of them an edge byte, all different from their neighbours."""
+    return [0x12 + (i * 0x23) % 0x5B for i in range(n)]
+
+
+def byte_position_patterns(nbytes):
+    """List of byte lists of length nbytes (distinct, deterministic order); empty for nbytes < 1."""
+    if nbytes < 1:
+        return []
+    bases = [[0x00] * nbytes, [0xFF] * nbytes, _typical(nbytes)]
+    seen, out = set(), []
+
+    def add(p):
+        t = tuple(p)
+        if t not in seen:
+            seen.add(t)
+            out.append(list(p))
+    for base in bases:
+        add(base)
+        for pos in range(nbytes):
+            for b in EDGE_BYTES:
+                p = list(base)
+                p[pos] = b
+                add(p)
+    typ = _typical(nbytes)
+    pairs = [(a, b) for a in EDGE_BYTES for b in EDGE_BYTES] if nbytes == 2 else _EDGE_PAIRS
+    for pos in range(nbytes - 1):
+        for a, b in pairs:
+            p = list(typ)
+            p[pos], p[pos + 1] = a, b
+            add(p)
+    return out
+
+
+def edge_raws(row):
+    """Byte-position boundary patterns for one table row (lists of row['width'] ints).  A scaled value is its scale
+    byte followed by a number: the patterns run over the number's bytes behind a few scale bytes (valid ones and the
+    neighbours of the valid window), and over the whole field."""
+    w = row["width"]
+    if row["kind"] != "scaled":
+        return byte_position_patterns(w)
+    seen, out = set(), []
+    scales = (0x00, 0x01, 0x06, 0x07, 0xFA, 0xF9, 0xFF, 0x80)
+    for i, body in enumerate(byte_position_patterns(w - 1)):
+        for s in (scales[i % len(scales)], 0x00):
+            t = (s,) + tuple(body)
+            if t not in seen:
+                seen.add(t)
+                out.append(list(t))
+    for p in byte_position_patterns(w):
+        if tuple(p) not in seen:
+            seen.add(tuple(p))
+            out.append(p)
+    return out
